@@ -1,8 +1,336 @@
-//! C07 — not built yet (stub).
+//! C07 — variable paths and literals denote the right value or fail loudly.
+//!
+//! non-trivial rule: paths — the path has at least one step below the root; literals — always
+//! (each literal is a distinct denotation).
+use crate::cfg::{parser, Config};
 use crate::ctx::Ctx;
+use crate::exec::{render, Out};
+use crate::gen::ast::lit_src;
+use crate::refm::{step, Look};
+use crate::rng::{hash_str, Rng};
+use crate::val::{arr, obj, s, RVal};
+use liquid::Object;
+use serde_json::json;
 
-pub fn run(_ctx: &mut Ctx) {}
+fn is_ident(k: &str) -> bool {
+    let mut cs = k.chars();
+    matches!(cs.next(), Some(c) if c.is_ascii_alphabetic() || c == '_')
+        && cs.all(|c| c.is_ascii_alphanumeric() || c == '_')
+        && !["nil", "null", "true", "false", "empty", "blank"].iter().any(|p| k.starts_with(p))
+}
 
-pub fn replay(_j: &serde_json::Value) -> bool {
-    false
+/// candidate indices to try below a value
+fn candidates(v: &RVal) -> Vec<RVal> {
+    match v {
+        RVal::Array(xs) => {
+            let n = xs.len() as i64;
+            let mut c: Vec<RVal> = (-(n + 2)..=(n + 1)).map(RVal::Int).collect();
+            c.extend([s("first"), s("last"), s("size"), s("zz")]);
+            c
+        }
+        RVal::Object(kv) => {
+            let mut c: Vec<RVal> = kv.iter().map(|(k, _)| s(k)).collect();
+            c.extend([s("size"), s("zz"), s("7"), RVal::Int(0)]);
+            c
+        }
+        RVal::Str(_) => vec![s("size"), s("zz"), RVal::Int(0)],
+        _ => vec![s("zz"), RVal::Int(0)],
+    }
+}
+
+fn fixed_roots() -> Vec<RVal> {
+    vec![
+        obj(vec![
+            ("a", arr(vec![RVal::Int(10), s("héllo"), arr(vec![RVal::Int(1), RVal::Int(2), RVal::Int(3)]), obj(vec![("k", s("v")), ("size", s("own-size"))]), RVal::Nil])),
+            ("size", RVal::Int(99)),
+            ("first", s("own-first")),
+            ("o", obj(vec![("7", s("seven")), ("é", arr(vec![])), ("a b", RVal::Bool(false)), ("last", arr(vec![s("x")]))])),
+            ("s", s("日本語")),
+            ("e", arr(vec![])),
+        ]),
+        obj(vec![("a", arr(vec![arr(vec![arr(vec![arr(vec![RVal::Int(4)])])])])), ("n", RVal::Int(5)), ("f", RVal::Float(1.5)), ("t", RVal::Bool(true))]),
+    ]
+}
+
+fn gen_root(r: &mut Rng) -> RVal {
+    fn value(r: &mut Rng, depth: usize) -> RVal {
+        match if depth >= 3 { r.below(4) } else { r.below(8) } {
+            0 => RVal::Int(r.range(-3, 40)),
+            1 => s(r.choose(&["", "a", "héllo", "👍x", "12"])),
+            2 => RVal::Nil,
+            3 => RVal::Bool(r.chance(1, 2)),
+            4 | 5 => arr((0..r.below(6)).map(|_| value(r, depth + 1)).collect()),
+            _ => {
+                let keys = ["k", "size", "first", "last", "0", "12", "é", "a b", "x_1", "K"];
+                let n = r.below(4);
+                let mut kv: Vec<(String, RVal)> = Vec::new();
+                for _ in 0..n {
+                    let k = r.choose(&keys).to_string();
+                    if !kv.iter().any(|(kk, _)| *kk == k) {
+                        kv.push((k, value(r, depth + 1)));
+                    }
+                }
+                RVal::Object(kv)
+            }
+        }
+    }
+    obj(vec![("a", arr((0..r.below(6)).map(|_| value(r, 1)).collect())), ("o", value(r, 1)), ("size", value(r, 2))])
+}
+
+struct Env {
+    parser: liquid::Parser,
+}
+
+/// render `{{ <path> | vdump }}` and `{{ <path> }}` in one of three index-supply forms and judge
+fn check_path(ctx: &mut Ctx, env: &Env, root: &RVal, idxs: &[RVal], expect: &Look, form: usize, dot_bits: u32) {
+    // source text of the path
+    let mut path = String::from("r");
+    let mut data: Vec<(String, RVal)> = vec![("r".into(), root.clone())];
+    let mut ix_obj: Vec<(String, RVal)> = Vec::new();
+    for (k, idx) in idxs.iter().enumerate() {
+        match form {
+            0 => match idx {
+                RVal::Str(key) if is_ident(key) && dot_bits >> k & 1 == 1 => path.push_str(&format!(".{key}")),
+                other => path.push_str(&format!("[{}]", lit_src(other))),
+            },
+            1 => {
+                path.push_str(&format!("[i{k}]"));
+                data.push((format!("i{k}"), idx.clone()));
+            }
+            _ => {
+                path.push_str(&format!("[ix.p{k}]"));
+                ix_obj.push((format!("p{k}"), idx.clone()));
+            }
+        }
+    }
+    if form == 2 {
+        data.push(("ix".into(), RVal::Object(ix_obj)));
+    }
+    let src = format!("{{{{ {path} | vdump }}}}|{{{{ {path} }}}}");
+    let h = hash_str(&format!("{src}|{}", RVal::Object(data.clone()).dump()));
+    if !ctx.mine(h) {
+        return;
+    }
+    let dataobj = RVal::Object(data);
+    let replay = || json!({"kind": "render", "config": "stdlib", "template": src, "partials": [], "data": dataobj.to_json(), "expected": format!("{expect:?}")});
+    let t = match env.parser.parse(&src) {
+        Ok(t) => t,
+        Err(e) => {
+            ctx.record(h, true);
+            ctx.violation("path:well-formed-path-rejected", &format!("{src:?}: {}", e.to_string().lines().next().unwrap_or("")), replay);
+            return;
+        }
+    };
+    let o: Object = dataobj.to_object();
+    let out = render(&t, &o);
+    ctx.record(h, !idxs.is_empty());
+    ctx.count(&format!("path:form{}:len{}", form, idxs.len()));
+    match (expect, &out) {
+        (Look::Unspec, _) => ctx.count("path:not-specified"),
+        (_, Out::Panic(p)) => ctx.violation(&p.key(), &format!("{src:?} panicked: {}", p.msg), replay),
+        (Look::Missing, Out::Err(_)) => ctx.count("path:missing-step-fails-loudly"),
+        (Look::Missing, Out::Ok(sx)) => ctx.violation(
+            "path:missing-step-does-not-fail",
+            &format!("{src:?} on {}: a step does not exist, yet the output tag rendered {sx:?}", dataobj.dump()),
+            replay,
+        ),
+        (Look::Found(v), Out::Ok(sx)) => {
+            let dump = sx.split('|').next().unwrap_or("");
+            if dump != v.dump() {
+                let key = if matches!(v, RVal::Int(_)) && path.ends_with("size") && dump.starts_with("i:") { "path:size-differs" } else { "path:wrong-value" };
+                ctx.violation(key, &format!("{src:?} on {}: denotes {}, rendered {dump}", dataobj.dump(), v.dump()), replay);
+            } else {
+                ctx.count("path:value-agrees");
+            }
+        }
+        (Look::Found(v), Out::Err(e)) => ctx.violation("path:existing-path-fails", &format!("{src:?} on {}: denotes {}, but failed: {e}", dataobj.dump(), v.dump()), replay),
+        _ => {}
+    }
+    ctx.sample(|| json!({"template": src, "data": dataobj.dump(), "expected": format!("{expect:?}").chars().take(80).collect::<String>()}));
+}
+
+fn walk(ctx: &mut Ctx, env: &Env, root: &RVal, cur: &RVal, idxs: &mut Vec<RVal>, rng: &mut Rng, sample_den: u32) {
+    if idxs.len() >= 4 {
+        return;
+    }
+    for c in candidates(cur) {
+        idxs.push(c.clone());
+        let look = step(cur, &c);
+        // thin out deep paths in the quick tier
+        if idxs.len() <= 2 || rng.chance(1, sample_den) {
+            for form in 0..3 {
+                let bits = rng.next() as u32;
+                check_path(ctx, env, root, idxs, &look, form, bits);
+                if form == 0 {
+                    check_path(ctx, env, root, idxs, &look, 0, !bits);
+                }
+            }
+        }
+        if let Look::Found(v) = &look {
+            walk(ctx, env, root, v, idxs, rng, sample_den);
+        }
+        idxs.pop();
+    }
+}
+
+fn literals(ctx: &mut Ctx, env: &Env) {
+    let mut cases: Vec<(String, RVal)> = Vec::new();
+    let ints: Vec<i64> = {
+        let mut v = vec![0, 1, -1, 7, 10, 255, i64::MAX, i64::MIN, i64::MAX - 1, i64::MIN + 1, 1 << 31, -(1 << 31), 1 << 53, (1 << 53) + 1, 999_999_999_999];
+        let n = ctx.scale(2_000i64, 20_000i64);
+        let stride = (i64::MAX / n) * 2;
+        let mut x = i64::MIN + 12345;
+        for _ in 0..n {
+            v.push(x);
+            x = x.saturating_add(stride);
+        }
+        v
+    };
+    for i in ints {
+        cases.push((i.to_string(), RVal::Int(i)));
+        if i >= 0 {
+            cases.push((format!("+{i}"), RVal::Int(i)));
+            cases.push((format!("00{i}"), RVal::Int(i)));
+            cases.push((format!("-{i}"), RVal::Int(-i)));
+        }
+    }
+    // decimals with 1..6 fraction digits
+    let mut r = ctx.rng("c07-lit");
+    for digits in 1..=6usize {
+        for _ in 0..ctx.scale(150, 1500) {
+            let ip = r.range(0, 100000);
+            let fp: String = (0..digits).map(|_| char::from(b'0' + r.below(10) as u8)).collect();
+            for sign in ["", "-", "+"] {
+                let text = format!("{sign}{ip}.{fp}");
+                let val: f64 = text.trim_start_matches('+').parse().unwrap();
+                cases.push((text, RVal::Float(val)));
+            }
+        }
+    }
+    for (t, v) in [("0.0", 0.0), ("-0.0", -0.0), ("1.50", 1.5), ("007.25", 7.25), ("0.000001", 0.000001), ("123456789.123456", 123456789.123456)] {
+        cases.push((t.to_string(), RVal::Float(v)));
+    }
+    // strings in either quote style over the generator alphabet without the closing quote
+    let alphabet = ["a", "B", " ", "é", "👍", "\t", "\n", "{", "}", "%", "{{", "}}", "{%", "%}", "|", ":", ",", ".", "-", "\\", "\\n", "0", "'", "\"", "e\u{301}", "nil", "<", ">"];
+    for _ in 0..ctx.scale(3_000, 60_000) {
+        let n = r.below(7);
+        let text: String = (0..n).map(|_| r.choose(&alphabet)).collect();
+        for q in ['\'', '"'] {
+            if !text.contains(q) {
+                cases.push((format!("{q}{text}{q}"), RVal::Str(text.clone())));
+            }
+        }
+    }
+    for (t, v) in [("true", RVal::Bool(true)), ("false", RVal::Bool(false)), ("nil", RVal::Nil), ("null", RVal::Nil), ("''", s("")), ("\"\"", s(""))] {
+        cases.push((t.to_string(), v));
+    }
+    let empty = Object::new();
+    for (text, want) in cases {
+        let src = format!("{{{{ {text} | vdump }}}}|{{{{ {text} }}}}");
+        let h = hash_str(&src);
+        if !ctx.mine(h) {
+            continue;
+        }
+        let replay = || json!({"kind": "render", "config": "stdlib", "template": src, "partials": [], "data": {}, "expected": want.dump()});
+        ctx.record(h, true);
+        ctx.count(&format!("literal:{}", want.kind()));
+        let t = match env.parser.parse(&src) {
+            Ok(t) => t,
+            Err(e) => {
+                ctx.violation("literal:rejected", &format!("{src:?}: {}", e.to_string().lines().next().unwrap_or("")), replay);
+                continue;
+            }
+        };
+        match render(&t, &empty) {
+            Out::Ok(sx) => {
+                let (dump, printed) = sx.split_once('|').unwrap_or((&sx, ""));
+                // the dump of a string may itself contain '|': compare the whole expected text
+                let want_print = crate::refm::print(&want).unwrap_or_default();
+                let expect = format!("{}|{}", want.dump(), want_print);
+                if sx != expect {
+                    ctx.violation(
+                        &format!("literal:denotes-wrong-value:{}", want.kind()),
+                        &format!("literal {text:?} denotes {} and prints {want_print:?}; got dump {dump:?} and print {printed:?}", want.dump()),
+                        replay,
+                    );
+                }
+            }
+            Out::Err(e) => ctx.violation("literal:render-fails", &format!("{src:?}: {e}"), replay),
+            Out::Panic(p) => ctx.violation(&p.key(), &format!("{src:?} panicked: {}", p.msg), replay),
+            Out::BadUtf8(_) => {}
+        }
+    }
+    // out-of-range integer literals: rejected, or the float of the same value
+    for (text, val) in [("9223372036854775808", 9223372036854775808.0f64), ("-9223372036854775809", -9223372036854775809.0), ("99999999999999999999", 1e20), ("+18446744073709551616", 18446744073709551616.0)] {
+        let src = format!("{{{{ {text} | vdump }}}}");
+        let h = hash_str(&src);
+        if !ctx.mine(h) {
+            continue;
+        }
+        ctx.record(h, true);
+        ctx.count("literal:out-of-range-integer");
+        match crate::mon::guard(|| env.parser.parse(&src)) {
+            Ok(Ok(t)) => {
+                let out = render(&t, &empty);
+                if out.ok() != Some(RVal::Float(val).dump().as_str()) {
+                    ctx.violation("literal:out-of-range-integer-became-something-else", &format!("{text} rendered {:?}; must be rejected or denote the float {val:e}", out.summary()), || {
+                        json!({"kind": "render", "config": "stdlib", "template": src, "partials": [], "data": {}})
+                    });
+                }
+            }
+            Ok(Err(_)) => ctx.count("literal:out-of-range-integer:rejected"),
+            Err(p) => ctx.violation(&p.key(), &format!("{src:?} panicked at parse: {}", p.msg), || json!({"kind": "parse", "config": "stdlib", "text": src})),
+        }
+    }
+}
+
+pub fn run(ctx: &mut Ctx) {
+    ctx.start_watchdog(120);
+    let env = Env { parser: parser(Config::Stdlib) };
+    let den = ctx.scale(6u32, 1u32);
+    let mut rng = ctx.rng("c07-walk");
+    for root in fixed_roots() {
+        let RVal::Object(kv) = &root else { continue };
+        let _ = kv;
+        let mut idxs = Vec::new();
+        walk(ctx, &env, &root, &root, &mut idxs, &mut rng, den);
+    }
+    let n = ctx.scale(30u64, 400u64);
+    let gr = ctx.rng("c07-roots");
+    for i in 0..n {
+        let mut r = gr.fork(i);
+        let root = gen_root(&mut r);
+        let mut idxs = Vec::new();
+        walk(ctx, &env, &root, &root, &mut idxs, &mut rng, den * 2);
+    }
+    literals(ctx, &env);
+}
+
+pub fn replay(j: &serde_json::Value) -> bool {
+    let v = crate::checks::c02::replay(j);
+    if let Some(e) = j["expected"].as_str() {
+        println!("expected: {e}");
+    }
+    // a recorded path/literal violation reproduces when the outcome still mismatches; the generic
+    // replay only knows crashes, so re-judge by key
+    let key = j["key"].as_str().unwrap_or("");
+    if key.starts_with("panic@") {
+        return v;
+    }
+    let p = parser(Config::Stdlib);
+    let src = j["template"].as_str().unwrap_or("");
+    let data = RVal::from_json(&j["data"]);
+    let o = if let RVal::Object(_) = data { data.to_object() } else { Object::new() };
+    let out = p.parse(src).ok().map(|t| render(&t, &o));
+    match (key, out) {
+        ("path:missing-step-does-not-fail", Some(Out::Ok(_))) => true,
+        ("path:existing-path-fails", Some(Out::Err(_))) => true,
+        (k, Some(Out::Ok(sx))) if k.starts_with("path:") => {
+            let want = j["expected"].as_str().unwrap_or("");
+            !want.contains(sx.split('|').next().unwrap_or("\u{0}"))
+        }
+        (k, Some(Out::Ok(sx))) if k.starts_with("literal:") => !sx.starts_with(j["expected"].as_str().unwrap_or("\u{0}")),
+        (_, None) => true,
+        _ => false,
+    }
 }
